@@ -245,6 +245,12 @@ Proof.
   eapply perm_trans; [do 2 apply perm_skip; apply perm_swap|].
   apply perm_swap.
 Qed.
+(* the jobs need not be distinct (collect_in_order has no NoDup hypothesis; the schedule is over POSITIONS):
+   the same job listed twice — adjacent, and first and last — yields one result per LISTED job *)
+Example collect_repeated_ex :
+  submit_evaluate (fun x => 10 * x) None [7;7;3;7] [3;1;0;2]%nat = Some [70;70;30;70]
+  /\ submit_evaluate (fun x => 10 * x) (Some 2) [7;7;3;7] [2;0;3;1]%nat = Some [70;70;30;70].
+Proof. split; reflexivity. Qed.
 Example collect_interleaved_ex :
   option_map (fun st => fs_out st)
     (frun (fun x => 10 * x) [1;2;3] (finit [1;2;3]) [FFill 2; FFill 0; FRead; FFill 1; FRead; FRead]%nat)
